@@ -63,7 +63,7 @@ def sub(tier, cfg, out):
         return 0
     _cfg = cfg
     cs = cases_for(tier)
-    res = vf.pmap(dig, cs, case_timeout=300)
+    res = vf.pmap(dig, cs, case_timeout=60)       # cases are millisecond-scale; a configuration in which one loops must not cost 5 min per case
     o = []
     for r in res:
         if isinstance(r, dict):
